@@ -440,10 +440,11 @@ def write_replay(pid, f, results, reg):
     safe = re.sub(r"[^A-Za-z0-9_.\-]+", "_", f["label"])[:120]
     path = os.path.join(REPLAY, "%s-%s.json" % (pid, safe))
     found = False
-    witness = None
+    witness = f.get("witness")
     try:
-        import witness as W
-        witness = W.find(pid, f, results)
+        if witness is None:
+            import witness as W
+            witness = W.find(pid, f, results)
     except ImportError:
         witness = None
     except Exception as e:
